@@ -74,6 +74,7 @@ type genKnobs struct {
 	JSONOnly                      bool // `this` in arbitrary positions / repeated
 	Modular                       bool
 	MaxDirect                     int // restrictions per direct assignment list (default 3)
+	Large                         bool
 }
 
 var (
@@ -106,6 +107,16 @@ func drawKnobs(r *rng) genKnobs {
 	k.MultiEdge = r.chance(50)
 	k.Invalid = r.chance(10)
 	k.JSONOnly = r.chance(15)
+	if r.chance(2) {
+		// beyond the usual small sizes: thresholds and capacities (more than 8
+		// relations, more than 16 nodes, deeper nesting, long restriction lists)
+		k.Large = true
+		k.NObj = 3 + r.intn(5)
+		k.MaxRel = 6 + r.intn(7)
+		k.MaxDepth = 3 + r.intn(3)
+		k.MaxDirect = 4 + r.intn(6)
+		k.NTerm = 2 + r.intn(4)
+	}
 	return k
 }
 
@@ -152,11 +163,18 @@ func genModel(r *rng, k genKnobs) *Model {
 	for _, t := range objs {
 		n := 1 + r.intn(k.MaxRel)
 		pi := r.perm(len(relPool))
-		if n > len(pi) {
-			n = len(pi)
-		}
-		for _, i := range pi[:n] {
-			rel := &Relation{Name: relPool[i]}
+		for j := 0; j < n; j++ {
+			name := ""
+			if j < len(pi) {
+				name = relPool[pi[j]]
+			} else {
+				// more relations than the pool has names; one of them long
+				name = fmt.Sprintf("rel%d", j)
+				if j == len(pi) {
+					name = "a_rather_long_relation_name_that_goes_on_and_on_for_more_than_sixty_four_characters_x"
+				}
+			}
+			rel := &Relation{Name: name}
 			t.Relations = append(t.Relations, rel)
 			slots = append(slots, &relSlot{typ: t, rel: rel})
 		}
@@ -338,6 +356,9 @@ func genModel(r *rng, k genKnobs) *Model {
 			n := 2
 			if op != KExcl {
 				n = 2 + r.intn(2)
+				if k.Large {
+					n = 2 + r.intn(5)
+				}
 			}
 			for i := 0; i < n; i++ {
 				u := under || op != KUnion
